@@ -115,9 +115,9 @@ def fam_align(rng):
         k = rng.randrange(5)
         a = Align(t, ("j", "i"))
         if k == 0:
-            return a + u
+            return a - u
         if k == 1:
-            return u * a
+            return (u - a) if rng.random() < 0.5 else u / (a * a + 1.0)
         if k == 2:
             return a + Align(u, ("j",))
         if k == 3:
@@ -191,21 +191,67 @@ def fam_lambda(rng):
     return thunk
 
 
+NONCOMM = [ops.sub, ops.truediv, ops.pow, ops.lt, ops.ge, ops.sub, ops.truediv]
+COMM = [ops.add, ops.mul, ops.max]
+
+
 def fam_constant(rng):
+    """funsor/constant.py: Constant-wrapped tensors with 1-3 const inputs (Bint and Real) combined by every kind of
+    binary op — non-commutative ones included — in BOTH operand orders with Number / Tensor / Constant / lazy
+    operands whose inputs cover / partly cover / are disjoint from the const inputs; unary ops; reductions over
+    const inputs partly / fully; substitution into const inputs."""
     def thunk():
-        ins = OrderedDict(i=Bint[2])
-        c = Constant(OrderedDict(x=Real, k=Bint[3]), _t(rng, ins, kind="int"))
-        t = _t(rng, ins, kind="int")
-        k = rng.randrange(5)
+        I = OrderedDict(i=Bint[2])
+        pool = [("k", Bint[3]), ("m", Bint[2]), ("x", Real)]
+        nconst = rng.choice([1, 2, 2, 3])
+        cins = OrderedDict(rng.sample(pool, nconst))
+
+        def pos(ins):
+            shape = tuple(d.dtype for d in ins.values())
+            vals = [float(rng.choice([1, 2, 3, 4])) for _ in range(int(np.prod(shape)) if shape else 1)]
+            return Tensor(np.array(vals).reshape(shape), OrderedDict(ins))
+        c = Constant(cins, pos(I if rng.random() < 0.7 else OrderedDict()))
+        bints = OrderedDict((n, d) for n, d in cins.items() if d is not Real)
+        # the other operand: covers / partly covers / is disjoint from the const inputs
+        cover = rng.randrange(4)
+        if cover == 0:
+            other_ins = OrderedDict(bints)                              # every Bint const input
+        elif cover == 1:
+            other_ins = OrderedDict(list(bints.items())[:1])            # part of them
+        elif cover == 2:
+            other_ins = OrderedDict(I)                                  # disjoint (shares arg's input)
+        else:
+            other_ins = OrderedDict(list(I.items()) + list(bints.items()))
+        op = rng.choice(NONCOMM + COMM)
+        k = rng.randrange(10)
         if k == 0:
-            return c + t
+            return op(c, pos(other_ins))                                # Constant, Tensor
         if k == 1:
-            return t * c
+            return op(pos(other_ins), c)                                # Tensor, Constant
         if k == 2:
-            return c + Constant(OrderedDict(y=Real), _t(rng, OrderedDict(), kind="int"))
+            return op(c, Number(float(rng.choice([2, 3]))))
         if k == 3:
-            return c.reduce(ops.add, "k")
-        return -c
+            return op(Number(float(rng.choice([2, 3]))), c)
+        if k == 4:
+            c2 = Constant(OrderedDict(rng.sample(pool, rng.choice([1, 2]))), pos(I if rng.random() < 0.5 else OrderedDict()))
+            return op(c, c2)                                            # Constant, Constant
+        if k == 5:
+            c2 = Constant(OrderedDict([("y", Real)]), pos(other_ins)) if not ({"y"} & set(other_ins)) else c
+            return op(c2, c)
+        if k == 6:
+            return rng.choice([ops.neg, ops.exp, ops.log, ops.abs])(c)  # unary
+        if k == 7 and bints:
+            names = list(bints)
+            rv = frozenset(rng.sample(names, rng.choice(range(1, len(names) + 1))))
+            if rng.random() < 0.5:
+                rv = rv | frozenset(["i"]) if "i" in c.inputs else rv
+            return c.reduce(rng.choice([ops.add, ops.mul, ops.logaddexp]), rv)
+        if k == 8:
+            name, d = rng.choice(list(cins.items()))
+            v = Number(1.5) if d is Real else Number(rng.randrange(d.dtype), d.dtype)
+            return op(c(**{name: v}), pos(other_ins))                   # substitution into a const input
+        w = Variable("w", Real)
+        return op(c, w) if rng.random() < 0.5 else op(w, c)             # lazy operand
     return thunk
 
 
